@@ -366,7 +366,11 @@ namespace chaiscript::json {
       }
     }
 
-    static JSON parse_object(const std::string &str, size_t &offset) {
+    /// Maximum nesting of arrays / objects accepted by the parser; deeper input is reported as an
+    /// error instead of overflowing the native stack of the recursive descent
+    constexpr static size_t max_depth = 512;
+
+    static JSON parse_object(const std::string &str, size_t &offset, const size_t depth) {
       JSON Object(JSON::Class::Object);
 
       ++offset;
@@ -377,13 +381,13 @@ namespace chaiscript::json {
       }
 
       for (; offset < str.size();) {
-        JSON Key = parse_next(str, offset);
+        JSON Key = parse_next(str, offset, depth + 1);
         consume_ws(str, offset);
         if (str.at(offset) != ':') {
           throw std::runtime_error(std::string("JSON ERROR: Object: Expected colon, found '") + str.at(offset) + "'\n");
         }
         consume_ws(str, ++offset);
-        JSON Value = parse_next(str, offset);
+        JSON Value = parse_next(str, offset, depth + 1);
         Object[Key.to_string()] = Value;
 
         consume_ws(str, offset);
@@ -401,7 +405,7 @@ namespace chaiscript::json {
       return Object;
     }
 
-    static JSON parse_array(const std::string &str, size_t &offset) {
+    static JSON parse_array(const std::string &str, size_t &offset, const size_t depth) {
       JSON Array(JSON::Class::Array);
       size_t index = 0;
 
@@ -413,7 +417,7 @@ namespace chaiscript::json {
       }
 
       for (; offset < str.size();) {
-        Array[index++] = parse_next(str, offset);
+        Array[index++] = parse_next(str, offset, depth + 1);
         consume_ws(str, offset);
 
         if (str.at(offset) == ',') {
@@ -563,15 +567,19 @@ namespace chaiscript::json {
       return JSON();
     }
 
-    static JSON parse_next(const std::string &str, size_t &offset) {
+    static JSON parse_next(const std::string &str, size_t &offset, const size_t depth = 0) {
+      if (depth > max_depth) {
+        throw std::runtime_error("JSON ERROR: Parse: Maximum nesting depth exceeded");
+      }
+
       char value;
       consume_ws(str, offset);
       value = str.at(offset);
       switch (value) {
         case '[':
-          return parse_array(str, offset);
+          return parse_array(str, offset, depth);
         case '{':
-          return parse_object(str, offset);
+          return parse_object(str, offset, depth);
         case '\"':
           return parse_string(str, offset);
         case 't':
